@@ -2,7 +2,7 @@
 from harness import enc
 
 ID = "C05"
-MODULES = ["HeraProofs.Props.C05", "HeraProofs.Props.C05b"]
+MODULES = ["HeraProofs.Props.C05", "HeraProofs.Props.C05b", "HeraProofs.Props.C05c"]
 GENERATED_DEPS = ["Ops.lean", "Tables.lean", "Exec.lean"]
 EXPLANATION = ("Theorems: generic (all patterns, all words, no enumeration) round trips of the pattern matcher and "
                "substituter (Enc.subst_of_match, Enc.match_of_subst), side conditions decided on the regenerated BITV/P "
@@ -10,12 +10,16 @@ EXPLANATION = ("Theorems: generic (all patterns, all words, no enumeration) roun
                "re-assembles (through the regenerated assemble methods, INC/DEC +-1 included) to exactly that word; "
                "C05_range. The HERA table itself (C05b, over Spec.encode / Spec.decode): C05_decode_encode (the word of every "
                "valid instruction decodes to that instruction), C05_encode_injective (two different instructions never share "
-               "a word, up to the two spellings of a byte operand), C05_encode_lt (every table word is 16 bits). The table is "
-               "tied to the code on every run by complete enumeration: Spec.encode against the real assembler on all 63 505 "
-               "valid instances, Spec.decode against the real disassembler on all 65 536 words.")
-ASSUMPTIONS = ["'the regenerated assemble = Spec.encode' and 'real disassemble = Spec.decode' are established by the exhaustive "
-               "enumeration of all 63 505 valid instances and all 65 536 words on every run (a complete check of a finite "
-               "domain), not by a Lean theorem; the theorems are about the two sides separately"]
+               "a word, up to the two spellings of a byte operand), C05_encode_lt (every table word is 16 bits). The code is tied "
+               "to the table by a theorem too (C05c): C05_assemble_is_table - for every valid instruction (all operands, no "
+               "enumeration) the assemble method regenerated from hera/op.py, applied to the bit pattern regenerated from the "
+               "class's BITV, returns exactly the two bytes of the HERA table word Spec.encode; hence C05_assemble_injective "
+               "(the code never gives two different instructions one word) and C05_decode_assemble. The decoding side "
+               "(real disassemble = Spec.decode) is tied by complete enumeration of all 65 536 words on every run, and "
+               "Spec.encode is also compared with the real assembler on all 63 505 valid instances.")
+ASSUMPTIONS = ["'real disassemble = Spec.decode' is established by the exhaustive enumeration of all 65 536 words on every run "
+               "(a complete check of a finite domain), not by a Lean theorem; 'regenerated assemble = Spec.encode' is the theorem "
+               "C05_assemble_is_table (over the hand model of substitute_bitvector, corresponded exhaustively)"]
 TRUSTED_EXTRA = ["hand model Model/Enc.lean of match_bitvector/substitute_bitvector/disassemble: exhaustive correspondence on all words and instances"]
 
 
